@@ -40,7 +40,11 @@ class C06(Prop):
             c["recs"] = c["recs"][:at] + big + c["recs"][at:]
             for i, r in enumerate(c["recs"]):
                 r["k"] = i
-            c["fl"] = [1] * len(c["recs"])
+            c["fl"] = [1] * at + [len(big)] + [1] * (len(c["recs"]) - at - len(big))
+            if R.chance(70):
+                # full-sized segments: hardly any segment ends on a record boundary, the direction stays buffered
+                from .base import apply_segmentation
+                apply_segmentation(R.fork("seg"), c, policy=R.choice(["mss", "mss", "random", "coalesce"]))
             spec = {"prop": "C06", "mode": mode, "conns": [c], "tap": gen.gen_tap(R.fork("tap"))}
             spec["cli"] = random_cli(R.fork("cli"), [c], allow=("m", "g", "a"))
             return spec
@@ -96,7 +100,9 @@ class C06(Prop):
         spec["cli"] = random_cli(R.fork("cli"), [c for c in spec["conns"] if c["proto"] in ("tls", "quic")])
         if R.chance(25):
             spec["container"] = R.choice([{"fmt": "pcap"}, {"fmt": "pcap", "ns": True, "be": True}, {"be": True},
-                                          {"tsresol": ["dec", 9]}, {"blocks_seed": R.bits(30), "epb_opts": True}])
+                                          {"tsresol": ["dec", 9]}, {"blocks_seed": R.bits(30), "epb_opts": True},
+                                          {"first_idb_linktype": R.choice([0, 101, 113, 228])},
+                                          {"first_idb_linktype": R.choice([0, 101, 113]), "blocks_seed": R.bits(30)}])
         if mode == "faulty":
             ex = world.expand(spec)
             n = len(ex["taplog"])
